@@ -133,7 +133,7 @@ pub const C28: Check = Check {
     id: "C28",
     level: "exploration",
     rule: "generated values of every persisted record type (stored point header, stored manifest, stored object with and \
-           without hash, store status, RRDP repository state with 0..300 delta-state entries, absent/empty/odd ETags, \
+           without hash, store status, RRDP repository state with 0..300 delta-state entries and with entry counts at and around powers of two up to 2^17 (incl. 65535/65536/65537), absent/empty/odd ETags, \
            URIs at grammar edges, second-resolution times at representable extremes, serial extremes, byte strings of \
            0..100k) are written with the real write/compose functions into a buffer followed by a sentinel, then read \
            back: decoded value must equal the written one and the reader must stand exactly at the sentinel. RRDP state \
@@ -184,6 +184,22 @@ fn roundtrip<T: PartialEq + std::fmt::Debug>(
 fn run_c28(ctx: &mut Ctx, rep: &mut Report) {
     let mut rng = ctx.rng("c28");
     let n = ctx.tier.pick(1500u64, 60_000);
+    // Collections and byte strings at and around the sizes where an encoder or decoder could switch strategy
+    // (powers of two up to 2^17, the 65536 pre-allocation bound of the map decoder).
+    let big_sizes = [255usize, 256, 257, 4095, 4097, 65_535, 65_536, 65_537, 70_001, 131_072, 131_073, 200_003];
+    for (k, size) in big_sizes.iter().enumerate() {
+        if k % ctx.shards != ctx.shard % big_sizes.len().min(ctx.shards) && !(ctx.shards > big_sizes.len() && ctx.shard % big_sizes.len() == k) { continue }
+        let mut rs = gen_state(&mut rng);
+        rs.delta_state.clear();
+        let base = rng.u64() >> 1;
+        for j in 0..*size as u64 { rs.delta_state.insert(base.wrapping_add(j), rrdp::Hash::from_data(&j.to_be_bytes())); }
+        roundtrip("RepositoryState", format!("deltas={size}"), &rs, |v, w| v.verif_compose(w), |r| RepositoryState::verif_parse(r).map_err(|e| e.to_string()), rep);
+        let mut o = gen_object(&mut rng);
+        o.content = Bytes::from(rng.bytes(*size));
+        roundtrip("StoredObject", format!("len={size}"), &o, |v, w| v.write(w),
+            |r| StoredObject::read(r).map_err(|e| e.to_string()).and_then(|x| x.ok_or("EOF instead of object".to_string())), rep);
+        rep.count("large_collection_roundtrips", 2);
+    }
     for i in 0..n {
         if i % 64 == 0 && !ctx.time_left() { rep.note("time budget reached"); break }
         // stored point header (time stamped by the constructor)
